@@ -15,7 +15,8 @@ Inductive callid :=
 | KAppendExc | KStopConsuming | KRemoveTags | KClearInbound
 | KNextId | KStoreChannel | KChannelOpen | KTestOpen | KTestClosed
 | KRegisterWrite | KTagsInPlace | KTagsRebind
-| KTestRunning | KClearRunning | KTimerCreate | KTimerStart | KTimerCancel | KSendHeartbeat | KOther.
+| KTestRunning | KClearRunning | KTimerCreate | KTimerStart | KTimerCancel | KSendHeartbeat
+| KStoreRequest | KStoreResponse | KAppendResponse | KWaitFor | KGetFrame | KRpcRemove | KOther.
 
 Inductive tok :=
 | TWith (l : lockid) | TEndWith
@@ -47,6 +48,8 @@ Definition callid_eqb (a b : callid) : bool :=
   | KRegisterWrite, KRegisterWrite | KTagsInPlace, KTagsInPlace | KTagsRebind, KTagsRebind
   | KTestRunning, KTestRunning | KClearRunning, KClearRunning | KTimerCreate, KTimerCreate
   | KTimerStart, KTimerStart | KTimerCancel, KTimerCancel | KSendHeartbeat, KSendHeartbeat
+  | KStoreRequest, KStoreRequest | KStoreResponse, KStoreResponse | KAppendResponse, KAppendResponse
+  | KWaitFor, KWaitFor | KGetFrame, KGetFrame | KRpcRemove, KRpcRemove
   | KOther, KOther => true
   | _, _ => false
   end.
